@@ -34,7 +34,9 @@ def execute(data: bytes, addr: int, flags: int, regs_extra=None, steps: int = 1,
     return pycpu.run(regs, mem, fill=0x107, steps=steps), regs, mem
 
 
-def judge(data: bytes, addr: int, vb: VB, full: bool) -> int:
+def judge(data: bytes, addr: int, vb: VB, full: bool, prior: Tuple[int, ...] = ()) -> int:
+    """prior = the addresses at which these bytes were analysed and executed earlier in this process (kept in the
+    witness: a violation may depend on that history, e.g. through a cache keyed without the address)."""
     n = 0
     try:
         info = drv.info_fp(data, addr)
@@ -49,7 +51,7 @@ def judge(data: bytes, addr: int, vb: VB, full: bool) -> int:
     length, branches = info
     op = ins.opcode
     tag = f"{name}/op={op:02X}/{'pre' if getattr(ins, '_pre', None) is not None else 'none'}"
-    wit = lambda: {"bytes": data.hex(), "addr": addr}  # noqa: E731
+    wit = lambda: {"bytes": data.hex(), "addr": addr, "prior_addrs": list(prior)}  # noqa: E731
     bt = {t: tg for t, tg in branches}
     fall = (addr + length) & 0xFFFFF
     for flags in (0, 1, 2, 3):
@@ -104,8 +106,8 @@ def _shard_shapes(args):
     for pre, op in pairs:
         addrs = ADDRS_CF if op in CF_OPS else ADDRS_ANY
         for d in shapes.shapes_for(pre, op, tail):
-            for a in addrs:
-                n += judge(d, a, vb, True)
+            for i, a in enumerate(addrs):
+                n += judge(d, a, vb, True, tuple(addrs[:i]))
                 cases += 1
     return {"n": n, "cases": cases, "vb": vb}
 
@@ -132,8 +134,8 @@ def _shard_targets(args):
             else:
                 combos = [b""]
             for cb in combos:
-                for a in ADDRS_CF:
-                    n += judge(head + cb + bytes(3), a, vb, True)
+                for i, a in enumerate(ADDRS_CF):
+                    n += judge(head + cb + bytes(3), a, vb, True, tuple(ADDRS_CF[:i]))
                     cases += 1
     return {"n": n, "cases": cases, "vb": vb}
 
@@ -154,15 +156,17 @@ def _pairs(args):
     vb = VB()
     n = 0
     for addr in addrs:
-        for kind in ("CALL", "CALLF", "IR"):
+        for kind in ("CALL", "CALLF", "IR", "PRE+CALL", "PRE+CALLF", "PRE+IR"):
             for bname, bhex in BODIES.items():
                 body = bytes.fromhex(bhex)
                 for flags in (0, 3):
                     for imr in (0x00, 0x8F):
                         page = addr & 0xF0000
-                        callee = (page | 0x2345) if kind != "CALLF" else 0x32345
-                        if kind == "IR":
+                        callee = (page | 0x2345) if not kind.endswith("CALLF") else 0x32345
+                        if kind.endswith("IR"):
                             callee = 0x32345
+                        prefixed = kind.startswith("PRE+")     # a (redundant) PRE byte is fused into the call: one longer instruction
+                        kind = kind[4:] if prefixed else kind
                         if kind == "CALL":
                             code = bytes([0x04, callee & 0xFF, (callee >> 8) & 0xFF])
                             ret = bytes([0x06])
@@ -172,12 +176,15 @@ def _pairs(args):
                         else:
                             code = bytes([0xFE])
                             ret = bytes([0x01])
-                        if (addr & 0xFFFF) + len(code) > 0xFFFF and kind == "CALL":
+                        if prefixed:
+                            code = bytes([0x32]) + code
+                            kind = "PRE+" + kind
+                        if (addr & 0xFFFF) + len(code) + 1 > 0xFFFF and kind.endswith("CALL"):
                             # a near call whose return address lies in the next page cannot return there by design
                             continue
                         mem_extra = {((callee + i) & 0xFFFFF): b for i, b in enumerate(body + ret)}
                         mem_extra[IMEM + 0xFB] = imr
-                        if kind == "IR":
+                        if kind.endswith("IR"):
                             mem_extra[0xFFFFA] = callee & 0xFF
                             mem_extra[0xFFFFB] = (callee >> 8) & 0xFF
                             mem_extra[0xFFFFC] = (callee >> 16) & 0xFF
@@ -194,7 +201,7 @@ def _pairs(args):
                             vb.add(f"C05/pair/{kind}/resume-pc", f"{kind} @ {addr:#x} body {bname}: returned to {pc:#x}, expected {want_pc:#x}", wit)
                         if out["regs"]["S"] != regs["S"]:
                             vb.add(f"C05/pair/{kind}/stack-pointer", f"{kind} @ {addr:#x} body {bname}: S {regs['S']:#x} -> {out['regs']['S']:#x}", wit)
-                        exp_f = flags if (kind == "IR" or bname != "flags") else (flags | 1)
+                        exp_f = flags if (kind.endswith("IR") or bname != "flags") else (flags | 1)
                         if (out["regs"]["F"] & 3) != (exp_f & 3):
                             vb.add(f"C05/pair/{kind}/flags", f"{kind} @ {addr:#x} body {bname}: F {flags:#x} -> {out['regs']['F']:#x} expected {exp_f:#x}", wit)
                         if out["regs"]["IMR"] != imr:
@@ -238,6 +245,8 @@ def replay(ctx, w) -> Optional[str]:
         r = _pairs(([w["addr"]],))
         vb = r["vb"]
     else:
+        for pa in w.get("prior_addrs", []):          # rebuild the history the violation was seen under
+            judge(bytes.fromhex(w["bytes"]), pa, VB(), True)
         judge(bytes.fromhex(w["bytes"]), w["addr"], vb, True)
     for sig, (cnt, wl) in vb.d.items():
         return wl[0][0]
